@@ -69,6 +69,29 @@ def _run_crosshair(cond, fn, timeout):
     from crosshair.core_and_libs import analyze_function, run_checkables
     from crosshair.options import AnalysisOptionSet
     from crosshair.statespace import MessageType
+    import crosshair.core as _cc
+    if not getattr(_cc, '_vf_patched', False):
+        _orig_choose = _cc.choose_type
+
+        def choose_type(space, from_type, varname):
+            # harness parameters are exactly int/bool/str/float: do not explore subclasses
+            # of int (bool, IntEnum...) for an `int` parameter (x26 paths per parameter)
+            if from_type in (int, float, str, bool):
+                return from_type
+            return _orig_choose(space, from_type, varname)
+        _cc.choose_type = choose_type
+        # CrossHair sometimes "prematurely realises" an argument (a bug-finding heuristic
+        # implemented as a parallel fork).  Those branches are never needed for a
+        # confirmation and only burn iterations: switch the heuristic off.
+        from crosshair.statespace import StateSpace
+        _orig_fp = StateSpace.fork_parallel
+
+        def fork_parallel(self, false_probability, desc=''):
+            if desc.startswith('premature realize'):
+                return False
+            return _orig_fp(self, false_probability, desc)
+        StateSpace.fork_parallel = fork_parallel
+        _cc._vf_patched = True
     opts = AnalysisOptionSet(per_condition_timeout=float(timeout), report_all=True,
                              per_path_timeout=float(max(30.0, timeout / 4.0)),
                              max_uninteresting_iterations=10 ** 9)
